@@ -3,3 +3,4 @@ import Lean.Meta.Tactic.Simp.RegisterCommand
 the events of a configuration apart (`idsk`) -/
 register_simp_attr timerk
 register_simp_attr idsk
+register_simp_attr wirek
